@@ -101,6 +101,11 @@ try:
         rec["results"].append({"check": c, "rc": p.returncode, "caught": p.returncode == 1 and "VIOLATION property=" in p.stdout, "wall_s": round(time.time() - t0, 1), "first": first})
 finally:
     subprocess.run(["git", "-C", "/repo", "worktree", "remove", "--force", wt])
+    # the build output and work directories of the scratch tree go with it
+    import re as _re
+    _tag = _re.sub(r"[^A-Za-z0-9]+", "_", wt).strip("_")
+    shutil.rmtree("/verif/bin/alt-" + _tag, ignore_errors=True)
+    shutil.rmtree("/verif/.work/alt-" + _tag, ignore_errors=True)
     print(json.dumps(rec, indent=1))
     with open("/verif/seeded_log.jsonl", "a") as f:
         f.write(json.dumps(rec) + "\n")
